@@ -35,6 +35,9 @@ pub fn menu_creates(id: u8) -> Vec<Slot> {
         11 => vec![s(2)],     // Write + Option<Read>
         12 => vec![s(7)],
         13 => vec![s(5), s(1)],
+        14 => vec![s(4), s(0)],
+        15 => vec![s(2)],     // Read + Option<Read>
+        16 => vec![s(6)],
         _ => panic!("menu id"),
     }
 }
